@@ -152,6 +152,22 @@ def format_registry(prog):
                         for i, a in enumerate(d.args):
                             args[dparams[i]] = a
                         for kw in d.keywords:
+                            if kw.arg is None:
+                                # **_IPV4_FORMAT_NAMES: a module-level dict literal of constant names, bound once
+                                tbl = kw.value
+                                if isinstance(tbl, ast.Name):
+                                    binds = mod.bindings.get(tbl.id) or []
+                                    tbl = binds[0][0] if len(binds) == 1 else None
+                                pairs = None
+                                if isinstance(tbl, ast.Dict) and all(isinstance(k, ast.Constant) and isinstance(k.value, str) for k in tbl.keys):
+                                    pairs = [(k.value, v) for k, v in zip(tbl.keys, tbl.values)]
+                                elif isinstance(tbl, ast.Call) and norm(tbl.func) == "dict" and not tbl.args and all(k.arg for k in tbl.keywords):
+                                    pairs = [(k.arg, k.value) for k in tbl.keywords]
+                                if pairs is None:
+                                    raise AnalysisError("format names passed as ** of something that is not a literal table: %s" % norm(d))
+                                for k, v in pairs:
+                                    args[k] = v
+                                continue
                             args[kw.arg] = kw.value
                         name = const_str(args["name"]) if "name" in args else None
                         names = {}
@@ -163,7 +179,13 @@ def format_registry(prog):
                         for k, v in args.items():
                             if k != "raises" and const_str(v) is None:
                                 raise AnalysisError("non-constant format name at %s" % norm(d))
-                        entries.append(FormatEntry(f, names, args.get("raises"), list(ctx), d))
+                        rz = args.get("raises")
+                        if isinstance(rz, ast.Name):
+                            # raises=_REGEX_ERRORS: a module-level tuple of exception classes, bound once
+                            binds = mod.bindings.get(rz.id) or []
+                            if len(binds) == 1 and isinstance(binds[0][0], (ast.Tuple, ast.Name, ast.Attribute)) and not isinstance(binds[0][0], ast.Name):
+                                rz = binds[0][0]
+                        entries.append(FormatEntry(f, names, rz, list(ctx), d))
                     elif isinstance(d, ast.Call) and isinstance(d.func, ast.Attribute) and d.func.attr in ("checks", "cls_checks"):
                         nm = const_str(d.args[0]) if d.args else None
                         raises = d.args[1] if len(d.args) > 1 else None
